@@ -1127,12 +1127,11 @@ def bs_american_binary_delta(
     d2_tensor = d2(s, t, v)
     w = v * t.sqrt()
 
-    # ToDo: fix 0/0 issue
-    p = (
-        npdf(d2_tensor).div(spot * w)
-        + ncdf(d1_tensor).div(strike)
-        + npdf(d1_tensor).div(strike * w)
-    )
+    numerator = npdf(d2_tensor).div(spot) + npdf(d1_tensor).div(strike)
+    p = numerator.div(w)
+    # 0 / 0 at maturity or zero volatility away from the strike: the density term vanishes
+    p = p.where((numerator != 0).logical_or(w != 0), torch.zeros_like(p))
+    p = p + ncdf(d1_tensor).div(strike)
     return p.where(max_log_moneyness < 0, torch.zeros_like(p))
 
 
@@ -1232,13 +1231,16 @@ def bs_lookback_price(
     m1 = d1(s - m, t, v)  # d' in the paper
     m2 = d2(s - m, t, v)
 
+    # w * d1 = s + w^2 / 2: written this way the terms stay finite (no 0 * inf) when w = 0
+    w = v * t.sqrt()
+
     # when max < strike
     price_0 = spot * (
-        ncdf(d1_value) + v * t.sqrt() * (d1_value * ncdf(d1_value) + npdf(d1_value))
+        ncdf(d1_value) + (s + w.square() / 2) * ncdf(d1_value) + w * npdf(d1_value)
     ) - strike * ncdf(d2_value)
     # when max >= strike
     price_1 = (
-        spot * (ncdf(m1) + v * t.sqrt() * (m1 * ncdf(m1) + npdf(m1)))
+        spot * (ncdf(m1) + (s - m + w.square() / 2) * ncdf(m1) + w * npdf(m1))
         - strike
         + max * (1 - ncdf(m2))
     )
